@@ -11,6 +11,7 @@ import (
 	"github.com/evanw/esbuild/internal/compat"
 	"github.com/evanw/esbuild/pkg/api"
 	"github.com/evanw/esbuild/verif/jsgen"
+	"github.com/evanw/esbuild/verif/jslib"
 	"github.com/evanw/esbuild/verif/jsref"
 	"github.com/evanw/esbuild/verif/jsutil"
 	"github.com/evanw/esbuild/verif/noderun"
@@ -292,9 +293,9 @@ func usable() []string {
 
 func runFamilies(t *testing.T) {
 	feats := usable()
-	H.Rule("families", fmt.Sprintf("bounded-exhaustive: %d hand-built construct families (optional chains, ??, logical/exponent assignment on identifiers/members/private/super, class fields/private/static blocks, object rest/spread, destructuring, templates, async functions, async generators, for-await, nestings) with probe operands × targets ES2015…ES2022 × each single `supported:{feature:false}` override on esnext (%d features) × minify on/off; oracle: V8 trace of the original vs the lowered program; non-trivial = esbuild's output differs from the unlowered print and ≥2 events", len(families), len(feats)))
+	H.Rule("families", fmt.Sprintf("bounded-exhaustive: %d hand-built construct jslib.Families (optional chains, ??, logical/exponent assignment on identifiers/members/private/super, class fields/private/static blocks, object rest/spread, destructuring, templates, async functions, async generators, for-await, nestings) with probe operands × targets ES2015…ES2022 × each single `supported:{feature:false}` override on esnext (%d features) × minify on/off; oracle: V8 trace of the original vs the lowered program; non-trivial = esbuild's output differs from the unlowered print and ≥2 events", len(jslib.Families), len(feats)))
 	i := 0
-	for fi, code := range families {
+	for fi, code := range jslib.Families {
 		var variants []Case
 		for _, tn := range targetNames[:8] {
 			variants = append(variants, Case{Code: code, Target: tn, Source: fmt.Sprintf("family%d", fi)})
